@@ -3,7 +3,7 @@ from __future__ import annotations
 
 import ast
 
-from ..project import enclosing_function, call_name, norm, walk_no_nested
+from ..project import AnalysisError, enclosing_function, call_name, norm, walk_no_nested
 from ..roles import CONSTRAINTS, MARSHAL
 
 
@@ -394,3 +394,207 @@ def reads_every_file(run, project, rule, what):
                    node=brs[0] if brs else lp, func=q, construct=f"{q} break in file loop")
     if not n:
         run.info(f"{rule}: no generator of tpmstream.io loops over its files and reads them; the file reader is not judged in this form")
+
+
+CANONICAL = "tpmstream.common.canonical"
+
+
+def canonical_class(project):
+    if not project.has_module(CANONICAL):
+        return None, None
+    mod = project.module(CANONICAL)
+    return mod, mod.classes().get("Canonical")
+
+
+def canonical_mode_default(run, project, rule, what):
+    """`Canonical(bytes, ...)` decodes as the decoder does by default: its own mode parameter defaults to strict (True, the
+    decoder's default) and is handed to the front-end's marshal() as it is"""
+    mod, cls = canonical_class(project)
+    if cls is None:
+        run.info(f"{rule}: class Canonical not found; its default mode is not judged")
+        return
+    init = next((n for n in cls.body if isinstance(n, ast.FunctionDef) and n.name == "__init__"), None)
+    if init is None:
+        run.info(f"{rule}: Canonical.__init__ not found; its default mode is not judged")
+        return
+    args = init.args.args + init.args.kwonlyargs
+    defaults = dict(zip([a.arg for a in init.args.args][len(init.args.args) - len(init.args.defaults):], init.args.defaults))
+    defaults.update({a.arg: d for a, d in zip(init.args.kwonlyargs, init.args.kw_defaults) if d is not None})
+    if "abort_on_error" not in [a.arg for a in args]:
+        run.info(f"{rule}: Canonical.__init__ has no abort_on_error parameter; its default mode is not judged")
+        return
+    d = defaults.get("abort_on_error")
+    if isinstance(d, ast.Name):
+        # a named constant of the module (`DEFAULT_STRICT = True`)
+        binds = [a for a in mod.tree.body if isinstance(a, ast.Assign) and any(isinstance(t, ast.Name) and t.id == d.id for t in a.targets)]
+        if len(binds) == 1 and isinstance(binds[0].value, ast.Constant):
+            d = binds[0].value
+    if d is not None and not isinstance(d, ast.Constant):
+        run.info(f"{rule}: Canonical's default mode is `{norm(d)}`, not a constant; not judged")
+        return
+    run.ob(rule, isinstance(d, ast.Constant) and d.value is True, "Canonical: default mode is strict",
+           f"Canonical.__init__ has abort_on_error={norm(d) if d is not None else '<required>'} as default: a Canonical built from bytes "
+           f"without the flag decodes in warn mode ({what})", module=mod, node=d if d is not None else init, func="Canonical.__init__",
+           construct="Canonical default mode")
+    calls = [c for c in walk_no_nested(init) if isinstance(c, ast.Call) and isinstance(c.func, ast.Attribute) and c.func.attr == "marshal"]
+    for c in calls:
+        kw = next((k for k in c.keywords if k.arg == "abort_on_error"), None)
+        spread = any(k.arg is None for k in c.keywords)
+        ok = spread or (kw is not None and isinstance(kw.value, ast.Name) and kw.value.id == "abort_on_error")
+        if not ok and kw is not None and not isinstance(kw.value, ast.Constant):
+            run.info(f"{rule}: Canonical hands `{norm(kw.value)}` to the front-end as mode; not judged")
+            continue
+        run.ob(rule, ok, "Canonical: the mode is handed to the front-end",
+               f"Canonical.__init__ calls `{norm(c.func)}` with abort_on_error={norm(kw.value) if kw is not None else '<omitted>'}: the mode the "
+               f"caller asked for does not reach the decoder ({what})", module=mod, node=c, func="Canonical.__init__",
+               construct="Canonical mode hand-over")
+
+
+def canonical_fill_once(run, project, rule, what):
+    """what a Canonical was built from is kept: outside `__init__` a slot (`self._object`, ...) that the constructor may have
+    filled from its input is assigned only where it is known to be empty (`self.<slot> is None` holds on the path)"""
+    from .. import paths
+    mod, cls = canonical_class(project)
+    if cls is None:
+        run.info(f"{rule}: class Canonical not found; not judged")
+        return
+    init = next((n for n in cls.body if isinstance(n, ast.FunctionDef) and n.name == "__init__"), None)
+    if init is None:
+        return
+    # slots the constructor fills from its input on one branch and leaves empty (None) on another
+    stores = {}
+    for a in walk_no_nested(init):
+        if isinstance(a, ast.Assign):
+            for t in a.targets:
+                if isinstance(t, ast.Attribute) and isinstance(t.value, ast.Name) and t.value.id == "self":
+                    stores.setdefault(t.attr, []).append(a.value)
+    slots = {s for s, vs in stores.items() if any(isinstance(v, ast.Constant) and v.value is None for v in vs)
+             and any(not (isinstance(v, ast.Constant) and v.value is None) for v in vs)}
+    n = 0
+    for m in cls.body:
+        if not isinstance(m, ast.FunctionDef) or m.name == "__init__":
+            continue
+        sites = [a for a in walk_no_nested(m) if isinstance(a, ast.Assign) and any(
+            isinstance(t, ast.Attribute) and isinstance(t.value, ast.Name) and t.value.id == "self" and t.attr in slots for t in a.targets)]
+        if not sites:
+            continue
+        for p in paths.summarise(mod, m):
+            for k, e, node in p.effects:
+                if k != "store" and k != "assign":
+                    continue
+                tgt = getattr(e, "targets", None)
+                tgt = tgt[0] if tgt else None
+                if not (isinstance(tgt, ast.Attribute) and isinstance(tgt.value, ast.Name) and tgt.value.id == "self" and tgt.attr in slots):
+                    continue
+                n += 1
+                atom = f"self.{tgt.attr} is None"
+                ok = p.truth(atom) is True or p.truth(f"truthy self.{tgt.attr}") is False
+                slot = f"self.{tgt.attr}"
+                if not ok and (any(slot in a_ for a_, _v, _ in p.cond) or slot in norm(e.value)):
+                    # the slot is looked at on this path in a form that is not followed (or the new value is computed from the
+                    # old one): no verdict
+                    run.info(f"{rule}: Canonical.{m.name} assigns {slot} under a test / from a value that mentions it; not judged")
+                    continue
+                run.ob(rule, ok, f"Canonical.{m.name}: self.{tgt.attr} is filled only when empty",
+                       f"Canonical.{m.name} assigns self.{tgt.attr} on a path where it is not known to be empty (`{atom}` is not tested): "
+                       f"a Canonical built from an object loses that object ({what})", module=mod, node=node if node is not None else m,
+                       func=f"Canonical.{m.name}", construct=f"Canonical.{tgt.attr} fill-once")
+    if slots and not n:
+        run.info(f"{rule}: no late assignment to {sorted(slots)} found in Canonical; nothing to judge")
+
+
+def text_sources_unwrapped(run, project, rule, what):
+    """the file reader of tpmstream.io reads a text-mode file (mode "r": sys.stdin, open(path)) through its byte buffer and a
+    binary one ("rb") directly: the test on `<file>.mode` that guards the `.buffer` hand-over is evaluated for both"""
+    if not project.has_module("tpmstream.io"):
+        run.info(f"{rule}: tpmstream.io not found; the file reader is not judged")
+        return
+    mod = project.module("tpmstream.io")
+    n = 0
+    for q, fn in mod.functions().items():
+        params = {a.arg for a in fn.args.args}
+        loops = [lp for lp in walk_no_nested(fn) if isinstance(lp, ast.For) and isinstance(lp.target, ast.Name)
+                 and any(isinstance(x, ast.Name) and x.id in params for x in ast.walk(lp.iter))]
+        reads = any(isinstance(c, ast.Call) and isinstance(c.func, ast.Attribute) and c.func.attr in ("read", "read1", "readinto", "readline")
+                    for c in walk_no_nested(fn))
+        if not loops or not reads:
+            continue
+        for lp in loops:
+            v = lp.target.id
+            hand = [a for a in ast.walk(lp) if isinstance(a, ast.Attribute) and a.attr == "buffer" and isinstance(a.value, ast.Name) and a.value.id == v]
+            ifs = [i for i in ast.walk(lp) if isinstance(i, ast.If) and any(h in list(ast.walk(i)) for h in hand)]
+            passed_on = [c for c in ast.walk(lp) if isinstance(c, ast.Call) and any(
+                isinstance(a, ast.Name) and a.id == v for a in list(c.args) + [k.value for k in c.keywords])]
+            if not hand and passed_on:
+                run.info(f"{rule}: {q} hands the file to `{norm(passed_on[0].func)}`; the text-mode hand-over is not judged")
+                continue
+            if not hand:
+                n += 1
+                run.ob(rule, False, f"{q}: text-mode files are read through their byte buffer",
+                       f"{q} never takes `.buffer` of a file: a text-mode source (sys.stdin, open(path)) yields characters, not bytes ({what})",
+                       module=mod, node=lp, func=q, construct=f"{q} text-mode hand-over")
+                continue
+            for i in ifs:
+                modes = [a for a in ast.walk(i.test) if isinstance(a, ast.Attribute) and a.attr == "mode" and isinstance(a.value, ast.Name) and a.value.id == v]
+                if not modes or not any(h in list(ast.walk(b)) for b in i.body for h in hand):
+                    run.info(f"{rule}: {q} guards the byte-buffer hand-over by `{norm(i.test)}`; not judged")
+                    continue
+
+                def holds(mode, test=i.test):
+                    import copy
+                    t = copy.deepcopy(test)
+
+                    class Sub(ast.NodeTransformer):
+                        def visit_Attribute(self, a):
+                            if a.attr == "mode" and isinstance(a.value, ast.Name) and a.value.id == v:
+                                return ast.copy_location(ast.Constant(value=mode), a)
+                            return self.generic_visit(a)
+                    t = ast.fix_missing_locations(ast.Expression(body=Sub().visit(t)))
+                    if any(isinstance(x, (ast.Name, ast.Call, ast.Attribute, ast.Subscript, ast.Lambda)) and not (
+                            isinstance(x, ast.Call) and isinstance(x.func, ast.Attribute) and isinstance(x.func.value, ast.Constant)
+                            and x.func.attr in ("startswith", "endswith")) and not (isinstance(x, ast.Attribute) and isinstance(x.value, ast.Constant))
+                            for x in ast.walk(t)):
+                        raise AnalysisError(f"{rule}: the mode test `{norm(test)}` of {q} is not a closed expression over the mode")
+                    return bool(eval(compile(t, "<mode test>", "eval"), {"__builtins__": {}}, {}))
+                try:
+                    t_r, t_rb = holds("r"), holds("rb")
+                except AnalysisError as ex:
+                    run.info(f"{ex}; not judged")
+                    continue
+                except Exception as ex:   # (the test itself fails for one of the two modes)
+                    run.info(f"{rule}: the mode test `{norm(i.test)}` of {q} cannot be evaluated ({type(ex).__name__}); not judged")
+                    continue
+                n += 1
+                run.ob(rule, t_r and not t_rb, f"{q}: mode 'r' is read through .buffer, mode 'rb' directly",
+                       f"the test `{norm(i.test)}` of {q} is {t_r} for mode 'r' (sys.stdin, open(path): must hand over to .buffer) and {t_rb} for "
+                       f"mode 'rb' (has no .buffer): {what}", module=mod, node=i, func=q, construct=f"{q} text-mode test")
+    if not n:
+        run.info(f"{rule}: no file loop with a text-mode hand-over found in tpmstream.io; not judged")
+
+
+def pathnode_texts_distinct(run, project, rule, what):
+    """the text of a path node tells a list from its elements and the elements from each other: PathNode.__str__ evaluated (mini
+    interpreter) for index None, 0, 1, 2 gives four different texts"""
+    from ..minieval import Imprecise, Interp, NeedBit, Raised, TypeRef
+    name = "tpmstream.common.path"
+    if not project.has_module(name):
+        run.info(f"{rule}: {name} not found; not judged")
+        return
+    mod = project.module(name)
+    cls = mod.classes().get("PathNode")
+    f = next((m for m in cls.body if isinstance(m, ast.FunctionDef) and m.name == "__str__"), None) if cls is not None else None
+    if f is None:
+        run.info(f"{rule}: PathNode.__str__ not found; not judged")
+        return
+    texts = {}
+    for idx in (None, 0, 1, 2):
+        it = Interp({}, module_tree=mod.tree, max_steps=20000)
+        try:
+            texts[idx] = it.call(f, [TypeRef("PathNode", attrs={"name": "n", "index": idx, "__partial__": True})])
+        except Raised as r:
+            texts[idx] = f"<raises {r.cls}>"
+        except (NeedBit, Imprecise) as ex:
+            raise AnalysisError(f"{rule}: PathNode.__str__ could not be evaluated ({ex})")
+    ok = all(isinstance(t, str) and not t.startswith("<raises") for t in texts.values()) and len(set(texts.values())) == 4
+    run.ob(rule, ok, "PathNode.__str__: a list and its elements 0, 1, 2 have four different texts",
+           f"PathNode('n', index) prints as {texts}: {what}", module=mod, node=f, func="PathNode.__str__", construct="PathNode text")
